@@ -159,6 +159,9 @@ func tblGen(r *rand.Rand, mode string, thorough bool) tblCase {
 			c.NKeys = 1 + r.Intn(12)
 		}
 		c.ValShape = 1
+		if r.Intn(10) == 0 {
+			c.NKeys = pick(r, 1024, 1025, 1500) // a table beyond a thousand records (positions and replacements are sampled)
+		}
 		c.KeyShape = pick(r, 0, 1)
 		c.Loader = pick(r, 0, 0, 1, 3) // the damage arm also reads through the skip-list and the disk index
 		if c.KeyShape == 0 && r.Intn(4) == 0 {
@@ -554,6 +557,13 @@ func tblDamage(c *Ctx, tc tblCase, tape *simrt.Tape) (vs []tblV, evals int) {
 	if !c.Thorough() && len(orig) > 1500 {
 		step = len(orig) / 700
 	}
+	big := len(pairs) > 200
+	if big {
+		// every open of such a table validates a thousand records: 120 positions x 2 replacements
+		step = len(orig)/120 + 1
+		full := repl
+		repl = func(old byte) []byte { return full(old)[:2] }
+	}
 	for pos := 0; pos < len(orig); pos++ {
 		if step > 1 && pos%step != 0 && pos > 64 {
 			continue
@@ -570,6 +580,9 @@ func tblDamage(c *Ctx, tc tblCase, tape *simrt.Tape) (vs []tblV, evals int) {
 		if step > 1 && L%step != 0 {
 			continue
 		}
+		if big && L%(step*3) != 0 {
+			continue
+		}
 		if !try(orig[:L], fmt.Sprintf("truncated: data.rio cut to %d of %d bytes", L, len(orig))) {
 			return
 		}
@@ -577,6 +590,9 @@ func tblDamage(c *Ctx, tc tblCase, tape *simrt.Tape) (vs []tblV, evals int) {
 	// swapped records: exchange the byte ranges of two whole records of equal stored length, or adjacent records
 	if offs := recordOffsets(dir, pairs); len(offs) >= 2 {
 		for i := 0; i+1 < len(offs); i++ {
+			if big && i >= 20 {
+				break
+			}
 			a0, a1 := offs[i], offs[i+1]
 			b1 := len(orig)
 			if i+2 < len(offs) {
@@ -607,8 +623,11 @@ func tblDamage(c *Ctx, tc tblCase, tape *simrt.Tape) (vs []tblV, evals int) {
 	}
 	defer f.Close()
 	lstep := 1
-	if !c.Thorough() {
+	if !c.Thorough() || big {
 		lstep = len(orig)/200 + 1
+	}
+	if big {
+		lstep = len(orig)/60 + 1
 	}
 	for pos := 8; pos < len(orig); pos += lstep {
 		for _, v := range []byte{orig[pos] ^ 1, orig[pos] ^ 0x80, 0x00, 0xff} {
@@ -708,6 +727,7 @@ func tablesimMain(c *Ctx) {
 		seed := c.RunSeed(i)
 		r := rand.New(rand.NewSource(seed))
 		tc := tblGen(r, c.Mode, c.Thorough())
+		c.Begin(seed, tc)
 		vs, evals := tblRun(c, tc, simrt.NewTape(seed))
 		c.Res.Runs++
 		c.Res.Evaluations += evals
